@@ -61,6 +61,8 @@ def val_term(j):
         return C(k, int(j[1]), [int(n) for n in j[2]], int(j[3]))
     if k == "PProxy":
         return C(k, int(j[1]), int(j[2]))
+    if k == "PDict":
+        return C(k, [(val_term(a), val_term(b)) for a, b in j[1]])
     raise ValueError(j)
 
 
@@ -105,6 +107,8 @@ def desc_term(d):
         return C(k, desc_term(d[1]), int(d[2]), int(d[3]))
     if k == "DRangeDyn":
         return C(k, int(d[1]), int(d[2]), int(d[3]))
+    if k == "DDict":
+        return C(k, desc_term(d[1]), desc_term(d[2]))
     if k == "DArray":
         def dim(x):
             if x is None:
@@ -192,7 +196,7 @@ ATOMS = [
     ["PProxy", 100, 1], ["PProxy", 101, 1], ["PProxy", 102, 1],
     ["PType", 100], ["PType", 101], ["PType", 102], ["PType", 3], ["PType", 110],
     ["PCallable", 0], ["PCallable", 1], ["PModule", 0],
-    ["POther", -1], ["POther", -2], ["POther", -3], ["POther", 1],
+    ["PDict", []], ["PDict", [[["PInt", 1], ["PInt", 2]]]], ["POther", -3], ["POther", 1],
     ["PUndefined"],          # traits.api.Undefined: setattr_trait stores it without validation (F22)
 ]
 
@@ -316,7 +320,7 @@ ARRAY_VALUES = [["PArray", 30, [3], 0], ["PArray", 30, [2, 3], 1], ["PArray", 33
                 ["PList", [["PList", [["PInt", 1], ["PInt", 2], ["PInt", 5]]], ["PList", [["PInt", 0], ["PInt", 5], ["PInt", 12]]]]],
                 ["PList", []], ["PList", [["PInt", 1], S("a")]], ["PTupleSub", [["PInt", 1], ["PInt", 2]]],
                 ["PList", [["PList", [["PInt", 1]]], ["PList", [["PInt", 1], ["PInt", 2]]]]],
-                S("abc"), ["PInt", 5], ["PNone"], ["PFloat", F(0.5)], ["PBytes", [97]], ["POther", -2]]
+                S("abc"), ["PInt", 5], ["PNone"], ["PFloat", F(0.5)], ["PBytes", [97]], ["PDict", [[["PInt", 1], ["PInt", 2]]]]]
 
 
 # List(<trait>) members (items validated through CTrait.validate of the item trait), alone and inside Either / Tuple / Union
@@ -331,6 +335,38 @@ LIST_CONTAINERS = [["DCompound", [["DInt"], ["DList", ["DInt"], 0, MAXSIZE]]],
                    ["DTuple", [["DCompound", [["DList", ["DCast", "CTFloat"], 0, MAXSIZE], ["DEnum", [["PNone"]]]]], ["DInt"]]],
                    ["DUnion", [["DList", ["DInt"], 0, 2], ["DList", ["DStr"], 0, MAXSIZE]]],
                    ["DUnion", [["DInt"], ["DList", ["DFloat"], 0, MAXSIZE]]]]
+
+
+# Dict(<key trait>, <value trait>) members
+DICTS = [["DDict", ["DInt"], ["DStr"]], ["DDict", ["DCast", "CTInt"], ["DFloat"]], ["DDict", ["DStr"], ["DList", ["DInt"], 0, MAXSIZE]],
+         ["DDict", ["DCompound", [["DInt"], ["DStr"]]], ["DTuple", [["DInt"], ["DFloat"]]]], ["DDict", ["DAny"], ["DBool"]],
+         ["DCompound", [["DInt"], ["DDict", ["DStr"], ["DInt"]]]], ["DTuple", [["DDict", ["DInt"], ["DCast", "CTStr"]], ["DInt"]]],
+         ["DUnion", [["DDict", ["DInt"], ["DInt"]], ["DList", ["DInt"], 0, MAXSIZE]]], ["DList", ["DDict", ["DStr"], ["DFloat"]], 0, 2]]
+
+
+def dict_values(rnd, n):
+    keys = [["PInt", 1], ["PInt", 2], S("a"), S("1"), S("12"), ["PBool", True], ["PFloat", F(1.0)], ["PNone"],
+            ["PTuple", [["PInt", 1], ["PInt", 2]]], ["PIntSub", 3], ["PNpInt", 15, 1], ["PInt", 10 ** 400]]
+    vals = [["PInt", 1], S("a"), ["PFloat", F(0.5)], ["PBool", False], ["PNone"], ["PList", [["PInt", 1], ["PBool", True]]],
+            ["PTuple", [["PInt", 1], ["PInt", 2]]], ["PIntSub", 3], ["PIndexObj", ["Raises", "EValueError"]], ["PInt", 10 ** 400]]
+    out = [["PDict", []], ["PDict", [[["PInt", 1], S("a")]]], ["PDict", [[["PInt", 1], S("a")], [["PInt", 2], S("b")]]],
+           ["PDict", [[S("1"), ["PInt", 5]], [["PInt", 1], ["PInt", 7]]]],        # CInt keys collide after conversion
+           ["PDict", [[S("a"), ["PInt", 1]], [S("b"), ["PFloat", F(0.5)]]]], ["PDict", [[S("a"), ["PList", [["PInt", 1], ["PInt", 2]]]]]],
+           ["PDict", [[["PInt", 1], ["PTuple", [["PBool", True], ["PInt", 2]]]]]], ["PList", [["PInt", 1]]], ["PInt", 1], ["PNone"],
+           ["PDict", [[["PInt", 1], ["PIndexObj", ["Raises", "EValueError"]]], [S("x"), ["PInt", 1]]]]]
+    seen_keys = lambda kvs, k: any(a == k for a, _ in kvs)
+    for _ in range(n):
+        kvs = []
+        for _ in range(rnd.choice([0, 1, 2, 2, 3])):
+            k = rnd.choice(keys)
+            if k[0] in ("PBool", "PFloat") and any(a[0] in ("PInt", "PBool", "PFloat", "PNpInt", "PIntSub") for a, _ in kvs):
+                continue            # 1 == True == 1.0: one dict key
+            if k[0] in ("PInt", "PNpInt", "PIntSub") and any(a[0] in ("PBool", "PFloat", "PInt", "PNpInt", "PIntSub") and a != k for a, _ in kvs) and k[1 if k[0] != "PNpInt" else 2] in (1, 3):
+                continue
+            if not seen_keys(kvs, k):
+                kvs.append([k, rnd.choice(vals)])
+        out.append(["PDict", kvs])
+    return out
 
 
 def list_values(rnd, n):
@@ -383,7 +419,7 @@ def gen_desc(rnd, depth, compound_ok=True, layer2=True, extra=()):
 
 def is_fast(d):
     k = d[0]
-    if k in ("DAny", "DRangeI", "DType", "DString", "DPrefixList", "DPrefixMap", "DUnion", "DArray", "DList", "DRangeDyn"):
+    if k in ("DAny", "DRangeI", "DType", "DString", "DPrefixList", "DPrefixMap", "DUnion", "DArray", "DList", "DRangeDyn", "DDict"):
         return False
     if k == "DTuple":
         return len(d[1]) > 0
@@ -400,6 +436,9 @@ def desc_kinds(d, acc=None):
             desc_kinds(x, acc)
     if d[0] == "DList":
         desc_kinds(d[1], acc)
+    if d[0] == "DDict":
+        desc_kinds(d[1], acc)
+        desc_kinds(d[2], acc)
     return acc
 
 
@@ -412,6 +451,8 @@ def shape(d):
         return d[1][2:].join(["C", ""])
     if k == "DList":
         return "List(%s)" % shape(d[1])
+    if k == "DDict":
+        return "Dict(%s,%s)" % (shape(d[1]), shape(d[2]))
     return k[1:]
 
 
